@@ -41,6 +41,7 @@ type Stats struct {
 	RevisitFailure      int // ... where the earlier visit had failed
 	RevisitInLookahead  int
 	DiscardedTokens     int // tokens completed and later backtracked over or dropped by lookahead
+	DiscardedCaptures   int // ... of which <capture> tokens
 	Lookaheads          int
 	RestoreAfterConsume int // a backtrack point restored the position after input was consumed
 	BoundaryTests       int // a class/range test within +-1 of a bound
@@ -113,6 +114,22 @@ func countNodes(ns []*Node) int {
 	return c
 }
 
+func countCaps(ns []*Node) int {
+	c := 0
+	for _, n := range ns {
+		if n.Name == "PegText" {
+			c++
+		}
+		c += countCaps(n.Kids)
+	}
+	return c
+}
+
+func (it *interp) discard(ns []*Node) {
+	it.st.DiscardedTokens += countNodes(ns)
+	it.st.DiscardedCaptures += countCaps(ns)
+}
+
 func (it *interp) rule(i, pos int, out *[]*Node) (int, bool) {
 	key := [2]int{i, pos}
 	if v, seen := it.visits[key]; seen {
@@ -130,7 +147,7 @@ func (it *interp) rule(i, pos int, out *[]*Node) (int, bool) {
 	end, ok := it.eval(it.g.Rules[i].Body, pos, &kids)
 	if !ok {
 		it.visits[key] = 1
-		it.st.DiscardedTokens += countNodes(kids)
+		it.discard(kids)
 		return pos, false
 	}
 	it.visits[key] = 2
@@ -213,7 +230,7 @@ func (it *interp) eval(e *gram.Expr, pos int, out *[]*Node) (int, bool) {
 		var kids []*Node
 		end, ok := it.eval(e.Kids[0], pos, &kids)
 		if !ok {
-			it.st.DiscardedTokens += countNodes(kids)
+			it.discard(kids)
 			return pos, false
 		}
 		// the records made inside a capture are completed before the capture's own record
@@ -229,7 +246,7 @@ func (it *interp) eval(e *gram.Expr, pos int, out *[]*Node) (int, bool) {
 			var ok bool
 			p2, ok := it.eval(k, p, out)
 			if !ok {
-				it.st.DiscardedTokens += countNodes((*out)[mark:])
+				it.discard((*out)[mark:])
 				*out = (*out)[:mark]
 				it.restore(p, pos)
 				return pos, false
@@ -278,7 +295,7 @@ func (it *interp) eval(e *gram.Expr, pos int, out *[]*Node) (int, bool) {
 		var kids []*Node
 		p, ok := it.eval(e.Kids[0], pos, &kids)
 		it.lookaheadDepth--
-		it.st.DiscardedTokens += countNodes(kids)
+		it.discard(kids)
 		it.restore(p, pos)
 		if e.K == gram.KAnd {
 			return pos, ok
